@@ -37,6 +37,7 @@ func TestReplayC02(t *testing.T) { c02.replay(t) }
 // C03 — rewritten code is the '+' pattern instantiated with what was captured.
 var c03 = &modelCheck{
 	Prop:         "C03",
+	TypeOperand:  25,
 	NestedChoice: 20,
 	Opts: modelOpts{
 		Mine:         gen.MineOpts{MaxHoles: 3, NoDots: true, DupBias: true, Unwrap: true},
